@@ -228,6 +228,28 @@ def rule_L5(ctx) -> None:
     rule_L5d(ctx, "L5")
 
 
+def stale_scratch_locals(fn: ast.AST, lp: ast.AST):
+    """locals that the loop `lp` both changes in place (`x += ..`, `x.append(..)`) and reads (`len(x)`, passes on, tests) but that
+    are bound only outside it: from the second iteration on they still hold what the earlier iterations put there.
+    -> [(name, first read inside the loop)]"""
+    inside = list(ast.walk(lp))
+    mutated = {x.target.id for x in inside if isinstance(x, ast.AugAssign) and isinstance(x.target, ast.Name)} | {
+        x.func.value.id for x in inside if isinstance(x, ast.Call) and isinstance(x.func, ast.Attribute) and isinstance(x.func.value, ast.Name)
+        and x.func.attr in ("append", "extend", "add", "update", "write", "insert")}
+    method_recv = {id(x.func.value) for x in inside if isinstance(x, ast.Call) and isinstance(x.func, ast.Attribute)}
+    read = {x.id for x in inside if isinstance(x, ast.Name) and isinstance(x.ctx, ast.Load) and id(x) not in method_recv}
+    bound_inside = {t.id for x in inside if isinstance(x, (ast.Assign, ast.AnnAssign)) for t in (x.targets if isinstance(x, ast.Assign) else [x.target]) if isinstance(t, ast.Name)} | {
+        x.id for f_ in inside if isinstance(f_, (ast.For, ast.comprehension)) for x in ast.walk(f_.target) if isinstance(x, ast.Name)}
+    params = {a.arg for a in fn.args.args}
+    out = []
+    for v in sorted(mutated & read):
+        if v in bound_inside or v in params:
+            continue
+        use = next(x for x in inside if isinstance(x, ast.Name) and x.id == v and isinstance(x.ctx, ast.Load) and id(x) not in method_recv)
+        out.append((v, use))
+    return out, sorted(mutated & read)
+
+
 def rule_L6(ctx, rule: str = "L6") -> None:
     """per-field scratch state starts fresh for every field: a local that the field loop of dump / __len__ both changes in place
     (`buf += ..`, `buf.append(..)`) and reads (`len(buf)`, passes on) is bound inside the loop before it is used - bound once
@@ -245,27 +267,16 @@ def rule_L6(ctx, rule: str = "L6") -> None:
             n += 1
             continue
         lp = loops[0]
-        inside = list(ast.walk(lp))
-        mutated = {x.target.id for x in inside if isinstance(x, ast.AugAssign) and isinstance(x.target, ast.Name)} | {
-            x.func.value.id for x in inside if isinstance(x, ast.Call) and isinstance(x.func, ast.Attribute) and isinstance(x.func.value, ast.Name)
-            and x.func.attr in ("append", "extend", "add", "update", "write", "insert")}
-        aug_values = {id(x.target) for x in inside if isinstance(x, ast.AugAssign)}
-        method_recv = {id(x.func.value) for x in inside if isinstance(x, ast.Call) and isinstance(x.func, ast.Attribute)}
-        read = {x.id for x in inside if isinstance(x, ast.Name) and isinstance(x.ctx, ast.Load) and id(x) not in method_recv}
-        bound_inside = {t.id for x in inside if isinstance(x, (ast.Assign, ast.AnnAssign)) for t in (x.targets if isinstance(x, ast.Assign) else [x.target]) if isinstance(t, ast.Name)} | {
-            x.id for f_ in inside if isinstance(f_, (ast.For, ast.comprehension)) for x in ast.walk(f_.target) if isinstance(x, ast.Name)}
-        params = {a.arg for a in fn.args.args}
-        stale = sorted(v for v in mutated & read if v not in bound_inside and v not in params)
+        stale, both = stale_scratch_locals(fn, lp)
         n += 1
         name = f"{q.split('.')[-1]}:scratch-state-fresh-per-field"
         if stale:
-            v = stale[0]
-            use = next(x for x in inside if isinstance(x, ast.Name) and x.id == v and isinstance(x.ctx, ast.Load) and id(x) not in method_recv)
+            v, use = stale[0]
             ctx.refuted(rule, name, v, mod.loc(use), f"{q.split('.')[-1]}: `{v}` is changed in place and read inside the field loop but bound only above it: from the second field on it still "
                         "contains what the earlier fields put there (two non-empty packed fields: the second is measured / written together with the first)",
                         "M(a=[1, 2, 3], b=[1.0]) with two packed repeated fields: len(m) != len(bytes(m))")
         else:
-            ctx.proved(rule, name, mod.loc(lp), f"in-place locals read in the loop: {sorted(mutated & read) or 'none'}, each bound inside it")
+            ctx.proved(rule, name, mod.loc(lp), f"in-place locals read in the loop: {both or 'none'}, each bound inside it")
     ctx.floor(rule, "emitters", n, 2)
 
 
